@@ -43,6 +43,22 @@ theorem identical_accepted (ar : String → Nat) (r : Ty) (hd : declarable r = t
     bindIn r r = some [] :=
   (bindIn_nil_iff ar r r hd hr hr).mpr (sub_refl r hd)
 
+/-- **generic parameters are bound consistently**: mixing two bindings succeeds exactly with, at every generic
+parameter, the common type of what the two sides bound it to (`joinAt`: absent on one side → the other side's type;
+present on both → their `common_type`, failure if there is none) -/
+theorem mix_consistent (self other res : Bnd) (hnd : (other.map Prod.fst).Nodup)
+    (h : mix self other = some res) (k : String) :
+    joinAt (Bnd.get self k) (Bnd.get other k) = some (Bnd.get res k) :=
+  mix_get self other res hnd h k
+
+/-- the bottom type is the unit of `common_type` (an empty container literal takes the type of the other side) -/
+theorem commonType_unknown (a : Ty) : commonType a .unknown = some a ∧ commonType .unknown a = some a :=
+  ⟨commonType_unknown_right a, commonType_unknown_left a⟩
+
+/-- non-vacuity: `T := Optional<unknown>` mixed with `T := Optional<int>` is `T := Optional<int>`; with `T := str` it fails -/
+example : mix [("T", .native "Optional" [.unknown])] [("T", .native "Optional" [.int])] = some [("T", .native "Optional" [.int])] ∧
+    mix [("T", .native "Optional" [.unknown])] [("T", .str)] = none := ⟨rfl, rfl⟩
+
 /-- a call binds only when the number of arguments lies in the window [required, all parameters] -/
 theorem specBind_arity (f : FuncSpec) (args : List Ty) (b : Bnd) (h : specBind f args = some b) :
     f.nreq ≤ args.length ∧ args.length ≤ f.ps.length := by
